@@ -12,6 +12,9 @@ import Nq.Spawn
 import Nq.Gen.C20Bounds
 import Nq.FixedBuf
 import Nq.Gen.Consts
+import Drv.C20Tok
+import Nq.LocalPass
+import Drv.C20Getln
 
 open Nq Drv
 
@@ -274,6 +277,35 @@ def handleT (st : Stats) (f : List String) (inp : String) : IO Stats := do
     let mut st := st.bump ("T." ++ kind)
     if rest.getLast? != some "inv=1" then
       st ← note st "ORACLE" false s!"kind=parse.{kind} in={inp} structural-invariant-fails"
+    if kind == "tok" || kind == "utok" then
+      let r : Option (List Drv.C20Tok.Finding × List String) := match kind, rest with
+        | "tok", [inS, rcS, _ntok, usedS, _naddr, _uplen, pS, uS, qS, _] =>
+            (unhex inS).map (fun b => Drv.C20Tok.checkTok b rcS (natOf usedS) pS uS qS)
+        | "utok", [specS, llS, uaS, ulS, qaS, qlS, _] =>
+            (unhex specS).map (fun b => Drv.C20Tok.checkUtok b (natOf llS) (natOf uaS) (natOf ulS) (natOf qaS) (natOf qlS))
+        | _, _ => none
+      match r with
+      | none => st ← note st "DISAGREE" true s!"kind=parse.{kind} unparsable in={inp}"
+      | some (fs, ks) =>
+        for k in ks do st := st.bump k
+        for (dis, msg) in fs do
+          st ← note st (if dis then "DISAGREE" else "ORACLE") dis s!"kind=parse.{kind} in={inp} {msg}"
+    if kind == "gl2" then
+      match rest with
+      | [streamS, chunkS, bufS, sepS, callsS, _] =>
+        match unhex streamS with
+        | some stream =>
+          let bufsz := natOf bufS
+          let (m, grew) := Drv.C20Getln.modelCalls stream (natOf chunkS) bufsz (natOf sepS).toUInt8
+          if grew > 0 then st := st.bump "T.gl2.line-buffer-grew"
+          if (callsS.splitOn ";").any (fun c => match c.splitOn "," with | [_, contS, _, _, _, _, _] => contS != "-" && contS != "0" | _ => false) then
+            st := st.bump "T.gl2.slice-inside-buffer-at-offset>0"
+          if m != callsS then
+            st ← note st "DISAGREE" true s!"kind=parse.gl2 in={inp} impl={callsS} model={m}"
+          if !Drv.C20Getln.implOk callsS bufsz then
+            st ← note st "ORACLE" false s!"kind=parse.gl2 in={inp} impl={callsS} cont/clen-outside-the-buffer-or-len>a-or-n+p≠size"
+        | none => st ← note st "DISAGREE" true s!"kind=parse.gl2 unparsable in={inp}"
+      | _ => st ← note st "DISAGREE" true s!"kind=parse.gl2 unparsable in={inp}"
     if kind == "cdb" then
       match rest with
       | [fileS, keyS, rS, dlenS, dataS, _] =>
@@ -425,6 +457,37 @@ def handleH (st : Stats) (f : List String) (inp : String) : IO Stats := do
     return st
   | _ => note st "DISAGREE" true s!"kind=ctl-history unparsable in={inp.take 300}"
 
+/-! ### L : qmail-local.c main(), counting pass vs filling pass (c20_local.c) vs Nq.LocalPass -/
+open Nq.LocalPass in
+def handleL (st : Stats) (f : List String) (inp : String) : IO Stats := do
+  match f with
+  | [doitS, xS, contS, ":", exitS, callocS, ntoS, cfS, insideS] =>
+    match unhex contS with
+    | none => note st "DISAGREE" true s!"kind=local unparsable in={inp}"
+    | some cont =>
+      let doit := doitS == "1"
+      -- what main() builds before the two passes: an empty file is replaced by aliasempty ("#" here) and the x bit is
+      -- forgotten; a missing final newline is added
+      let (cmds, ffo) : Bytes × Bool :=
+        if cont.isEmpty then ([35, 10], false)
+        else (if cont.getLast? == some 10 then cont else cont ++ [10], xS == "1")
+      let n1 := pass1 cmds
+      let r := pass2 doit (fun _ => false) ffo cmds
+      let mexit := match r.exit with | .done => "0" | .die => "111" | .env => "?"
+      let mnto := if doit && r.exit == .done then r.nf else 0
+      let mut st := st.bump ("L." ++ (if doit then "doit" else "n") ++ ".exit" ++ exitS)
+      if n1 > r.cf && r.exit == .done then st := st.bump "L.pass1-overcounts"
+      if r.cf > 0 then st := st.bump "L.forwards"
+      if s!"{mexit} {n1 + 1} {mnto} {r.cf}" != s!"{exitS} {callocS} {ntoS} {cfS}" then
+        st ← note st "DISAGREE" true s!"kind=local in={inp} impl={exitS},{callocS},{ntoS},{cfS} model={mexit},{n1 + 1},{mnto},{r.cf}"
+      -- ORACLE (C20_local_two_pass on the implementation's numbers): what pass 2 stored / would store, plus the
+      -- terminator, fits the array that pass 1 sized; every recipient pointer lies inside cmds
+      let ca := intOf callocS
+      if ca ≥ 0 && !(Int.ofNat (natOf ntoS) + 1 ≤ ca && Int.ofNat (natOf cfS) + 1 ≤ ca && insideS == "1") then
+        st ← note st "ORACLE" false s!"kind=local in={inp} impl={exitS},{callocS},{ntoS},{cfS},{insideS} pass2-stores-exceed-pass1-count"
+      return st
+  | _ => note st "DISAGREE" true s!"kind=local unparsable in={inp}"
+
 def handle (st : Stats) (line : String) : IO Stats := do
   let f := fields line
   match f with
@@ -445,15 +508,16 @@ def handle (st : Stats) (line : String) : IO Stats := do
     | "O" => handleO st rest inp
     | "I" => handleI st rest inp
     | "D" => handleD st rest inp
-    | "T" => handleT st rest ("|".intercalate (f.take 6))
+    | "T" => handleT st rest ("|".intercalate (f.take (if rest.headD "" == "utok" then 4 else if rest.headD "" == "tok" then 3 else 6)))
     | "P" => handleP st rest inp
     | "R" => handleR st rest inp
     | "F" => handleF st rest inp
     | "H" => handleH st rest inp
+    | "L" => handleL st rest inp
     | "X" =>
       -- c20_parse.c prints its X lines without the leading T of the case: put it back so that the case can be replayed
       let cs := rest.dropLast
-      let cs := if ["tok", "cdb", "ctl", "ip", "hdr", "gl", "scan"].contains (cs.headD "") then "T" :: cs else cs
+      let cs := if ["tok", "utok", "cdb", "ctl", "ip", "hdr", "gl", "gl2", "scan"].contains (cs.headD "") then "T" :: cs else cs
       note (st.bump "X") "ORACLE" false s!"kind=sanitizer-abort in={"|".intercalate cs} the-run-was-killed-by-ASan/UBSan"
     | _ => note st "DISAGREE" true s!"kind=unknown unparsable in={(line.take 200)}"
 
